@@ -338,7 +338,7 @@ fn key_of(hist: &[Op], err: &str) -> String {
 
 pub fn run(tier: &str) -> Run {
     let mut run = Run::new("C13", tier);
-    let n = if tier == "thorough" { 7 } else { 4 };
+    let n = if tier == "thorough" { 7 } else { 6 };
     let alphabet = names(n);
     let init = St { list: ItemList::new(), model: vec![], next_id: 0 };
     let al = alphabet.clone();
